@@ -56,14 +56,15 @@ class Gen:
     def pick_dims(self, args, maxprod):
         """-> list of bounds, actual extents"""
         r = self.r
-        n = 2 if r.random() < 0.3 else 1
+        x = r.random()
+        n = 3 if x < 0.12 else (2 if x < 0.4 else 1)
         dims, ext = [], []
         for k in range(n):
             if r.random() < 0.5 and args:
                 a = r.randrange(len(args))
                 dims.append(("BArg", a)); ext.append(args[a])
             else:
-                v = r.choice([1, 2, 2, 3, 4, 4, 5, 8])
+                v = r.choice([1, 2, 2, 3, 4, 4, 5, 8]) if n < 3 else r.choice([1, 2, 2, 3, 3, 4])
                 dims.append(("BConst", v)); ext.append(v)
         p = 1
         for e in ext:
@@ -225,10 +226,10 @@ class Gen:
             nsec = r.choice([1, 2, 2, 3, 3]) if (nsh or nexc) else r.choice([1, 1, 2])
             attrs = []
             if r.random() < 0.3:
-                if len(iext) == 1:
-                    attrs.append("m%d" % (iext[0] + r.choice([0, 0, 2])))
-                else:
-                    attrs.append("m%dx%d" % (iext[1] + r.choice([0, 1]), iext[0]))
+                # @max_inner_dims lists the inner-most @inner loop first
+                rev = list(reversed(iext))
+                rev[0] += r.choice([0, 0, 1, 2])
+                attrs.append("m" + "x".join(map(str, rev)))
             if r.random() < 0.15:
                 attrs.append("s%d" % r.choice([8, 16, 32]))
             if q == 0 and r.random() < 0.3:
@@ -328,6 +329,13 @@ FIXED = [
     # helper function, @restrict, @max_inner_dims with run-time inner extent, @simd_length
     "kf4 args:5,3 garr:15,15 ob:a1:a0:i,t1:1x5:1:1:m8+s16+r sec:0:N X0=(g0[i0]#o0) S0.0=(x0-i0) "
     "sec:-:N O1.0=(s0[m((i0+1),5)]#x0)",
+    # three nested @outer and three nested @inner loops with literal inner extents (exclusive arrays exactly 24 long),
+    # @exclusive values carried over a barrier, @shared written by every inner tuple and read rotated by one
+    "kf6 args:2 garr:192,192 ob:c2,a0,c2:c2,c3,c4:i,t1:1x24:2:1:- sec:0:N X0=(((o0*100)+(o1*10))+o2) "
+    "X1=(((i0*100)+(i1*10))+i2) S0.0=(x1+1) sec:-:N O1.0=(((x0*1000)+x1)+s0[m((((i0*12)+((i1*4)+i2))+1),24)])",
+    # three nested @inner loops with a run-time extent and @max_inner_dims, three inner nests, block result by inner tuple 0
+    "kf7 args:3,2 garr:36,36,2 ob:a1:a1,a0,c2:i,t1,b1:1x12:1:2:m2x3x2 sec:0:N X0=((i0*9)+((i1*3)+i2)) S0.0=(x0+g0[i1]) "
+    "sec:-:B O1.0=(x0*2) sec:-:N O1.0=(w1.0+x0) F{L0=0;R1,c12{L0=(l0+s0[l1])};B2.0=l0}",
     # @atomic ++x / --x
     "kf5 args:3 garr:4,2 ob:a0:c4:i,a:-:0:1:- sec:-:N A1[0]++ I((i0<2)){A1[1]--}{A1[1]+=g0[i0]}",
 ]
